@@ -21,7 +21,7 @@ ASSUMPTIONS = [
 ]
 
 VALID = ["y", "x", "k", "I(x > 0)", "f", "g", "h", "u", "g[g1]", "g['g1']", 'h["lo"]', "w['a b']", 'w["c d"]', "f[zz]", "np.abs(y)", "binary(g, 'g1')",
-         "C(k)", "prop(s, n)", "p(s, n)", "proportion(s, n)", "prop(s, 40)", "p(s, 40)", None]
+         "C(k)", "C(h)", "C(f)", "d['10']", 'd["2"]', "d[1]" if False else "d['1']", "prop(s, n)", "p(s, n)", "proportion(s, n)", "prop(s, 40)", "p(s, 40)", None]
 INVALID = ["y + x", "y:x", "y*x", "1", "0", "offset(y)", "y / x", "(y | g)", "2"]
 
 
@@ -36,6 +36,8 @@ def case_strategy(draw):
     spec["cols"].append({"name": "n", "kind": "int", "values": trials})
     wl = ["a b", "c d", "e"]
     spec["cols"].append({"name": "w", "kind": "str", "values": [wl[(i + seed) % 3] for i in range(n)]})
+    dl = ["10", "2", "1"]  # levels that look like numbers
+    spec["cols"].append({"name": "d", "kind": "str", "values": [dl[(i * 2 + seed) % 3] for i in range(n)]})
     valid = draw(st.integers(0, 5)) > 0
     resp = draw(st.sampled_from(VALID if valid else INVALID))
     d = draw(rich.design(response=None, max_groups=1))
@@ -57,8 +59,8 @@ def expected_response(resp, frame, spec):
         return "numeric", (col("x") > 0).to_numpy(dtype=float), None
     if resp == "np.abs(y)":
         return "numeric", np.abs(col("y").to_numpy(dtype=float)), None
-    if resp in ("f", "g", "h", "u", "C(k)"):
-        name = "k" if resp == "C(k)" else resp
+    if resp in ("f", "g", "h", "u", "C(k)", "C(h)", "C(f)"):
+        name = resp[2:-1] if resp.startswith("C(") else resp
         c = frames.column(spec, name)
         vals = col(name).tolist()
         if c["kind"] == "cat" and c.get("ordered"):
@@ -93,7 +95,7 @@ def judge(ctx, case):
     formula = rhs if resp is None else f"{resp} ~ {rhs}"
     has_cat = any(a in ("f", "g", "h", "u") or a.startswith(("C(", "T(", "S(")) for t in d["terms"] + [e for g in d["groups"] for e in g["effects"]] for a in t)
     special = resp is not None and ("[" in resp or resp.split("(")[0] in ("prop", "p", "proportion") or
-                                    (resp in ("f", "g", "h", "u", "C(k)") and len(set(frame["k" if resp == "C(k)" else resp].tolist())) >= 3))
+                                    (resp in ("f", "g", "h", "u", "C(k)", "C(h)", "C(f)") and len(set(frame[resp[2:-1] if resp.startswith("C(") else resp].tolist())) >= 3))
     ctx.count(core.canon([formula, spec]), bool(special and has_cat), ["response:" + ("none" if resp is None else resp.split("(")[0].split("[")[0] + ("[level]" if resp and "[" in resp else "")),
               "valid" if case["valid"] else "invalid"], sample={"formula": formula, "frame": spec}, stratum="valid" if case["valid"] else "invalid")
     full = dict(case, formula=formula)
